@@ -2,7 +2,6 @@
 import json
 import math
 import subprocess
-import types
 from fractions import Fraction
 
 import numpy as np
@@ -12,303 +11,617 @@ import pyrx
 import vlib
 
 EXPLANATION = (
-    "EOM.wallProfile (per field) and the def-use slice of EOM._intermediatePressureResults "
-    "that is handed to Polynomial.integrate are regenerated from equationOfMotion.py (every "
-    "use of the wall parameters and of the grid carries the version that reaches it). Coq "
-    "proves for ALL widths, offsets, vevs and every C1 potential that the returned gradient "
-    "is the derivative of the returned profile, that the integral of dV/dphi.dphi/dz is the "
-    "potential difference (1 and 2 fields, finite stretch, whole line, in the compactified "
-    "grid coordinate with weight -dz/dchi, for any T(z) when the field part is T-"
-    "independent), and that the generated integrand IS that total derivative for the wall "
-    "parameters that are returned. The model is compared with the real wallProfile by "
-    "certified interval evaluation; the real EOM pressure is compared with V(low)-V(high) "
-    "on polynomial potentials over wall shapes, grid sizes and both grid settings, and the "
-    "hypothesis on the grid Jacobian is validated on every grid used.")
+    "EOM.wallProfile (per field), EOM._updateGrid and the def-use slice of "
+    "EOM._intermediatePressureResults that is handed to Polynomial.integrate are regenerated "
+    "from equationOfMotion.py: every use of the wall parameters, of the grid and of the "
+    "Boltzmann results carries the version that reaches it; the Boltzmann results may change "
+    "only under `if self.includeOffEq:` and every call through self other than an allow-list "
+    "of grid-pure methods (whose bodies are checked) counts as a re-mapping of the grid "
+    "(fail closed). Coq proves for ALL widths, offsets, vevs and every C1 potential that the "
+    "returned gradient is the derivative of the returned profile, that the integral of "
+    "dV/dphi.dphi/dz is the potential difference (1 and 2 fields, finite stretch, whole "
+    "line, compactified coordinate with weight -dz/dchi, any T(z) when the field part is "
+    "T-independent), and that with includeOffEq off and zero incoming Boltzmann results the "
+    "GENERATED integrand is that total derivative for the returned wall on one grid. The "
+    "real EOM (built through its own __init__) is run on polynomial potentials over wall "
+    "shapes, grid sizes and grid configurations, with and without declared particle "
+    "species, through _intermediatePressureResults and through wallPressure; its pressure "
+    "is compared with the documented quadrature of the exact integrand and with "
+    "V(low)-V(high).")
 
-TN = 100.0
+# a wall is RESOLVED by the grid when the documented quadrature rule applied to the exact
+# integrand on that grid reproduces V(low)-V(high) to this relative accuracy
+RESOLVED = 1e-3
+
+TOLERANCE_RULE = (
+    "no fitted tolerance.  For every input the harness evaluates the DOCUMENTED quadrature "
+    "(interior Gauss-Chebyshev-Lobatto nodes chi_k=-cos(k pi/M), weights pi/M sqrt(1-chi_k^2), "
+    "Jacobian of the grid map) of the EXACT integrand (closed-form tanh profile, closed-form "
+    "gradient of the potential) for the returned wall on the grid the caller sees: Q_ref.  "
+    "Judged: (i) |p - Q_ref| <= floor |dV| for EVERY input (all M >= 40, all tails), floor = "
+    "1e-9 + 1e-11 max|V|/|dV| (rounding of the finite-difference gradient: V carries a "
+    "-a T^4 term 50..6000 |dV|; largest observed |p - Q_ref| is below floor/100); (ii) the property itself, |p - dV| <= (3 |Q_ref - dV| + floor "
+    "|dV|), on the walls that the grid RESOLVES, defined as |Q_ref - dV| <= 1e-3 |dV| "
+    "(intrinsic error of the rule on the exact integrand, independent of the code).  "
+    "Unresolved walls (long unequal tails at M < ~60, very asymmetric two-field walls) are "
+    "outside the quantifier of the property but still checked by (i); their share per M is "
+    "recorded under coverage.resolution.")
 
 
 # ---------------------------------------------------------------------------------------
-# models
+# models: dimensionless potentials, V = TN^4 v(phi/TN, T/TN), with closed-form gradient
 
-def make_potential(kind, params):
-    from WallGo.effectivePotential import EffectivePotential, VeffDerivativeSettings
-    from WallGo.fields import Fields
+class Model:
+    def __init__(self, kind, params, TN, scalar_scale=False):
+        from WallGo.effectivePotential import EffectivePotential, VeffDerivativeSettings
+        from WallGo.fields import Fields
+        self.kind, self.p, self.TN = kind, params, TN
+        self.nf = dict(quartic1=1, sextic1=1, twofield=2, threefield=3)[kind]
+        model = self
 
-    if kind == "quartic1":
-        D, E, lam, T0, g = (params[k] for k in ("D", "E", "lam", "T0", "g"))
-
-        class Quartic1(EffectivePotential):
-            fieldCount = 1
+        class Pot(EffectivePotential):
+            fieldCount = model.nf
             effectivePotentialError = 1e-15
 
             def evaluate(self, fields, temperature):
                 fields = Fields(fields)
-                phi = fields.getField(0)
-                T = np.asarray(temperature)
-                return (D * (T ** 2 - T0 ** 2) * phi ** 2 - E * T * phi ** 3
-                        + lam / 4 * phi ** 4 - g * math.pi ** 2 / 90 * T ** 4)
+                x = [fields.getField(i) / TN for i in range(model.nf)]
+                return TN ** 4 * model.v(x, np.asarray(temperature) / TN)
 
-            def minima(self, T):
-                disc = 9 * E ** 2 * T ** 2 - 8 * lam * D * (T ** 2 - T0 ** 2)
-                return Fields([(3 * E * T + math.sqrt(disc)) / (2 * lam)]), Fields([0.0])
+        self.veff = Pot()
+        scale = float(TN) if scalar_scale else [float(TN)] * self.nf
+        self.veff.configureDerivatives(VeffDerivativeSettings(
+            temperatureVariationScale=0.1 * TN, fieldValueVariationScale=scale))
 
-        pot = Quartic1()
-        scale = [50.0]
-    else:
-        muh2, lh, mus2, ls, lhs, ch, cs, a = (params[k] for k in (
-            "muh2", "lh", "mus2", "ls", "lhs", "ch", "cs", "a"))
+    # dimensionless potential and gradient; x = list of arrays, t = T/TN
+    def v(self, x, t):
+        p = self.p
+        if self.kind == "quartic1":
+            return (p["D"] * (t ** 2 - p["t0"] ** 2) * x[0] ** 2 - p["E"] * t * x[0] ** 3
+                    + p["lam"] / 4 * x[0] ** 4 - p["g"] * math.pi ** 2 / 90 * t ** 4)
+        if self.kind == "sextic1":
+            return (p["a2"] * (t ** 2 + p["c"]) * x[0] ** 2 - p["a4"] * x[0] ** 4
+                    + p["a6"] * x[0] ** 6 - p["g"] * t ** 4)
+        r = (0.5 * (-p["muh2"] + p["ch"] * t ** 2) * x[0] ** 2 + 0.25 * p["lh"] * x[0] ** 4
+             + 0.5 * (-p["mus2"] + p["cs"] * t ** 2) * x[1] ** 2 + 0.25 * p["ls"] * x[1] ** 4
+             + 0.25 * p["lhs"] * x[0] ** 2 * x[1] ** 2 - p["a"] * t ** 4)
+        if self.kind == "threefield":
+            r = r + (0.5 * p["m3"] * x[2] ** 2 + 0.25 * p["l3"] * x[2] ** 4
+                     + 0.25 * p["lh3"] * x[0] ** 2 * x[2] ** 2
+                     + 0.25 * p["ls3"] * x[1] ** 2 * x[2] ** 2)
+        return r
 
-        class TwoField(EffectivePotential):
-            fieldCount = 2
-            effectivePotentialError = 1e-15
+    def dv(self, x, t):
+        p = self.p
+        if self.kind == "quartic1":
+            return [2 * p["D"] * (t ** 2 - p["t0"] ** 2) * x[0] - 3 * p["E"] * t * x[0] ** 2
+                    + p["lam"] * x[0] ** 3]
+        if self.kind == "sextic1":
+            return [2 * p["a2"] * (t ** 2 + p["c"]) * x[0] - 4 * p["a4"] * x[0] ** 3
+                    + 6 * p["a6"] * x[0] ** 5]
+        g = [(-p["muh2"] + p["ch"] * t ** 2) * x[0] + p["lh"] * x[0] ** 3
+             + 0.5 * p["lhs"] * x[0] * x[1] ** 2,
+             (-p["mus2"] + p["cs"] * t ** 2) * x[1] + p["ls"] * x[1] ** 3
+             + 0.5 * p["lhs"] * x[0] ** 2 * x[1]]
+        if self.kind == "threefield":
+            g[0] = g[0] + 0.5 * p["lh3"] * x[0] * x[2] ** 2
+            g[1] = g[1] + 0.5 * p["ls3"] * x[1] * x[2] ** 2
+            g.append(p["m3"] * x[2] + p["l3"] * x[2] ** 3 + 0.5 * p["lh3"] * x[0] ** 2 * x[2]
+                     + 0.5 * p["ls3"] * x[1] ** 2 * x[2])
+        return g
 
-            def evaluate(self, fields, temperature):
-                fields = Fields(fields)
-                h, s = fields.getField(0), fields.getField(1)
-                T = np.asarray(temperature)
-                return (0.5 * (-muh2 + ch * T ** 2) * h ** 2 + 0.25 * lh * h ** 4
-                        + 0.5 * (-mus2 + cs * T ** 2) * s ** 2 + 0.25 * ls * s ** 4
-                        + 0.25 * lhs * h ** 2 * s ** 2 - a * T ** 4)
+    def V(self, point, T):
+        """exact potential at one field-space point (physical units)"""
+        return float(self.TN ** 4 * self.v([float(q) / self.TN for q in point], T / self.TN))
 
-            def minima(self, T):
-                v = math.sqrt((muh2 - ch * T ** 2) / lh)
-                w = math.sqrt((mus2 - cs * T ** 2) / ls)
-                return Fields([v, 0.0]), Fields([0.0, w])
+    def gradient(self, fields, T):
+        """exact dV/dphi_i on an array of field values (n, nf), T scalar or (n,)"""
+        f = np.asarray(fields, dtype=float)
+        x = [f[:, i] / self.TN for i in range(self.nf)]
+        g = self.dv(x, np.asarray(T, dtype=float) / self.TN)
+        return self.TN ** 3 * np.stack(g, axis=1)
 
-        pot = TwoField()
-        scale = [100.0, 100.0]
-    pot.configureDerivatives(VeffDerivativeSettings(
-        temperatureVariationScale=10.0, fieldValueVariationScale=scale))
-    return pot
+    def ends(self):
+        """(low-T phase, high-T phase) at T = TN.  Minima of the potential, except for the
+        three-field model where the third component of the low phase is a fixed non-minimal
+        value (the identity does not depend on the end points being minima)."""
+        p, TN = self.p, self.TN
+        if self.kind == "quartic1":
+            disc = 9 * p["E"] ** 2 - 8 * p["lam"] * p["D"] * (1 - p["t0"] ** 2)
+            return [TN * (3 * p["E"] + math.sqrt(disc)) / (2 * p["lam"])], [0.0]
+        if self.kind == "sextic1":
+            a2 = p["a2"] * (1 + p["c"])
+            x2 = (4 * p["a4"] + math.sqrt(16 * p["a4"] ** 2 - 48 * a2 * p["a6"])) / (12 * p["a6"])
+            return [TN * math.sqrt(x2)], [0.0]
+        v = TN * math.sqrt((p["muh2"] - p["ch"]) / p["lh"])
+        w = TN * math.sqrt((p["mus2"] - p["cs"]) / p["ls"])
+        if self.kind == "threefield":
+            return [v, 0.0, p["u3"] * v], [0.0, w, 0.0]
+        return [v, 0.0], [0.0, w]
 
 
-def zero_boltzmann(grid):
+# ---------------------------------------------------------------------------------------
+# collaborators of EOM: subclasses of the real classes with the constructor bypassed, so that
+# the real EOM.__init__ (isinstance asserts, attribute set-up) runs
+
+def zero_boltzmann(grid, nparticles):
+    """zero Boltzmann results, built exactly as EOM.wallPressure builds them"""
     from WallGo.containers import BoltzmannDeltas
     from WallGo.polynomial import Polynomial
     from WallGo.results import BoltzmannResults
-    zp = Polynomial(np.zeros((0, grid.M - 1)), grid, direction=("Array", "z"),
+    zp = Polynomial(np.zeros((nparticles, grid.M - 1)), grid, direction=("Array", "z"),
                     basis=("Array", "Cardinal"))
     deltas = BoltzmannDeltas(Delta00=zp, Delta02=zp, Delta20=zp, Delta11=zp)
-    return BoltzmannResults(deltaF=np.zeros((0, grid.M - 1, grid.N - 1, grid.N - 1)),
+    return BoltzmannResults(deltaF=np.zeros((nparticles, grid.M - 1, grid.N - 1, grid.N - 1)),
                             Deltas=deltas, truncationError=0.0,
-                            linearizationCriterion1=np.zeros(0),
-                            linearizationCriterion2=np.zeros(0))
+                            linearizationCriterion1=np.zeros(nparticles),
+                            linearizationCriterion2=np.zeros(nparticles))
 
 
-class NoParticleBoltzmann:
-    """Boltzmann solver of an EMPTY set of out-of-equilibrium particles"""
+def make_particles(model, n):
+    from WallGo import Particle
+    out = []
+    for k in range(n):
+        y2 = 0.5 + 0.3 * k
+        i0 = k % model.nf
 
-    def __init__(self, grid):
-        self.grid = grid
-        self.offEqParticles = []
+        def msq(fields, y2=y2, i0=i0):
+            return y2 * np.asarray(fields)[..., i0] ** 2
 
-    def setBackground(self, background):
-        self.background = background
+        def dmsq(fields, y2=y2, i0=i0):
+            f = np.asarray(fields)
+            out_ = np.zeros_like(f, dtype=float)
+            out_[..., i0] = 2 * y2 * f[..., i0]
+            return out_
+        out.append(Particle("p%d" % k, index=k, msqVacuum=msq, msqDerivative=dmsq,
+                            statistics="Fermion", totalDOFs=12 - 6 * k))
+    return out
 
-    def getDeltas(self):
-        return zero_boltzmann(self.grid)
 
-
-def make_eom(veff, M, offEq, nf):
-    """A real EOM object (its own methods are the code under test) around a real
-    Grid3Scales; the isinstance asserts of __init__ are skipped, same attributes set."""
+def make_eom(model, M, offEq, ratio=0.5, smoothing=0.1, mfpT=100.0, nparticles=0,
+             hydro=None, **kw):
+    """A real EOM built by its own __init__ around a real Grid3Scales."""
+    from WallGo.boltzmann import BoltzmannSolver
     from WallGo.equationOfMotion import EOM
     from WallGo.grid3Scales import Grid3Scales
-    grid = Grid3Scales(M, 5, 10.0 / TN, 10.0 / TN, 5.0 / TN, TN, 0.5, 0.1)
-    eom = EOM.__new__(EOM)
-    eom.grid = grid
-    eom.nbrFields = nf
-    eom.meanFreePathScale = 100.0 / TN
-    eom.wallThicknessBounds = (0.1, 100.0)
-    eom.wallOffsetBounds = (-10.0, 10.0)
-    eom.includeOffEq = offEq
-    eom.forceEnergyConservation = False
-    eom.thermo = types.SimpleNamespace(effectivePotential=veff, Tnucl=TN)
-    eom.boltzmannSolver = NoParticleBoltzmann(grid)
-    eom.particles = eom.boltzmannSolver.offEqParticles
+    from WallGo.hydrodynamics import Hydrodynamics
+    from WallGo.polynomial import Polynomial
+    from WallGo.containers import BoltzmannDeltas
+    from WallGo.results import BoltzmannResults
+    from WallGo.thermodynamics import Thermodynamics
+    from WallGo.fields import Fields
+    TN = model.TN
+    grid = Grid3Scales(M, 5, 40.0 / TN, 40.0 / TN, 5.0 / TN, TN, ratio, smoothing)
+    particles = make_particles(model, nparticles)
+
+    class StubBoltzmann(BoltzmannSolver):
+        """solver stub: NON-zero deltas for every declared species"""
+
+        def __init__(self):      # pylint: disable=super-init-not-called
+            self.grid = grid
+            self.offEqParticles = particles
+            self.calls = 0
+
+        def setBackground(self, background):
+            self.background = background
+
+        def getDeltas(self):
+            self.calls += 1
+            n = len(particles)
+            x = np.linspace(-1, 1, grid.M - 1)
+            c = np.array([(0.3 + 0.1 * k) * TN ** 2 * np.exp(-4 * x ** 2) for k in range(n)]
+                         ).reshape(n, grid.M - 1)
+            zp = Polynomial(c, grid, direction=("Array", "z"), basis=("Array", "Cardinal"))
+            deltas = BoltzmannDeltas(Delta00=zp, Delta02=zp, Delta20=zp, Delta11=zp)
+            return BoltzmannResults(
+                deltaF=np.zeros((n, grid.M - 1, grid.N - 1, grid.N - 1)), Deltas=deltas,
+                truncationError=0.0, linearizationCriterion1=np.zeros(n),
+                linearizationCriterion2=np.zeros(n))
+
+    lo, hi = model.ends()
+
+    class _FE:
+        def __init__(self, vev):
+            self.vev = vev
+
+        def interpolationRangeMax(self):
+            return 10.0 * TN
+
+        def interpolationRangeMin(self):
+            return 0.1 * TN
+
+        def __call__(self, T):
+            class _R:
+                fieldsAtMinimum = Fields(self.vev)
+            return _R()
+
+    class StubThermo(Thermodynamics):
+        def __init__(self):      # pylint: disable=super-init-not-called
+            self.effectivePotential = model.veff
+            self.Tnucl = TN
+            self.freeEnergyLow = _FE(lo)
+            self.freeEnergyHigh = _FE(hi)
+
+    class StubHydro(Hydrodynamics):
+        def __init__(self):      # pylint: disable=super-init-not-called
+            self.Tnucl = TN
+            self.vJ = 0.95
+            self.boundaries = hydro
+
+        def findHydroBoundaries(self, vwTry):
+            return self.boundaries(vwTry)
+
+    eom = EOM(StubBoltzmann(), StubThermo(), StubHydro(), grid, model.nf, mfpT / TN,
+              (0.1, 100.0), (-10.0, 10.0), includeOffEq=offEq, **kw)
     return eom
 
 
-TOLERANCE_RULE = (
-    "|p - dV|/|dV| <= min(1, 10 (E_M + E_R)) + 3e-9 Vscale/|dV|, R = M min(width)/L the "
-    "number of grid points per narrowest returned wall (L = half extent of the returned "
-    "wall as in _updateGrid), Vscale = max |V| at the two phases (rounding floor of the "
-    "finite-difference gradient); equal tails: E_M = 0, E_R = 10^(3 - 0.48 R); unequal tails "
-    "(includeOffEq): E_M = 10^(-0.5 - 0.065 (min(M,120) - 40) - 0.03 max(0, M - 120)), "
-    "E_R = 10^(-0.12 R); fitted to the worst of 3840 evaluations of the unchanged code "
-    "(largest observed error/tolerance 0.12 where the cap 1 is not reached, 0.30 at M < 45 "
-    "with unequal tails where the quadrature is accurate to tens of percent only)")
+# ---------------------------------------------------------------------------------------
+# the reference: documented quadrature of the exact integrand
+
+def grid_jacobian_check(grid):
+    """Relative difference between getCompactificationDerivatives and a 5-point central
+    difference of decompactify, evaluated in extended precision (the map reaches |z| ~ 1e4
+    wall widths for long tails: in binary64 the difference quotient is rounding-limited)
+    with three steps; per node the best step counts and the rounding of the difference
+    quotient itself (10 eps |z| / (h |J|)) is discounted.  Also returns the finite-difference
+    Jacobian and whether the map reaches the two phases at chi = +-(1 - 1e-9)."""
+    chi64 = np.asarray(grid.chiValues, dtype=float)
+    dzdchi = np.asarray(grid.getCompactificationDerivatives()[0], dtype=float)
+    err, best = None, None
+    for dt in (np.longdouble, np.float64):
+        chi = chi64.astype(dt)
+        zeros = np.zeros_like(chi)
+        try:
+            z0 = grid.decompactify(chi, zeros, zeros)[0]
+        except Exception:       # noqa: BLE001  (extended precision not supported)
+            continue
+        eps = float(np.finfo(np.asarray(z0).dtype).eps)
+        for hf in (4e-3, 1e-3, 2.5e-4):
+            h = dt(hf) * (1 - np.abs(chi))
+            Z = lambda k: grid.decompactify(chi + k * h, zeros, zeros)[0]  # noqa: E731
+            fd = np.asarray((Z(-2) - 8 * Z(-1) + 8 * Z(1) - Z(2)) / (12 * h), dtype=float)
+            rb = 10 * eps * np.abs(np.asarray(z0, dtype=float)) / (
+                np.asarray(h, dtype=float) * np.abs(dzdchi))
+            e1 = np.maximum(np.abs(fd - dzdchi) / np.abs(dzdchi) - rb, 0.0)
+            if err is None:
+                err, best = e1, fd
+            else:
+                best = np.where(e1 < err, fd, best)
+                err = np.minimum(err, e1)
+        break
+    zeros = np.zeros_like(chi64)
+    xi_ok = float(np.max(np.abs(grid.decompactify(chi64, zeros, zeros)[0] - grid.xiValues)))
+    ends = grid.decompactify(np.array([-1 + 1e-9, 1 - 1e-9]), np.zeros(2), np.zeros(2))[0]
+    return float(np.max(err)), xi_ok, best, dzdchi, [float(ends[0]), float(ends[1])]
 
 
-def tolerance(M, offEq, R, vscale_over_dV):
-    """Quadrature accuracy of the UNCHANGED code relative to |Delta V| (see TOLERANCE_RULE)"""
-    if offEq:
-        eM = 10 ** (-0.5 - 0.065 * (min(M, 120) - 40) - 0.03 * max(0, M - 120))
-        eR = 10 ** (-0.12 * R)
-    else:
-        eM = 0.0
-        eR = 10 ** (3 - 0.48 * R)
-    return min(1.0, 10 * (eM + eR)) + 3e-9 * vscale_over_dV
+def reference_quadrature(model, grid, lo, hi, widths, offsets, Tprof, jac):
+    chi = np.asarray(grid.chiValues, dtype=float)
+    M = grid.M
+    if not np.allclose(chi, -np.cos(np.arange(1, M) * np.pi / M), rtol=0, atol=1e-14):
+        return None
+    z = np.asarray(grid.xiValues, dtype=float)
+    lo, hi = np.asarray(lo, dtype=float), np.asarray(hi, dtype=float)
+    w, o = np.asarray(widths, dtype=float), np.asarray(offsets, dtype=float)
+    th = np.tanh(z[:, None] / w[None, :] + o[None, :])
+    phi = lo[None, :] + 0.5 * (hi - lo)[None, :] * (1 + th)
+    dphi = 0.5 * (hi - lo)[None, :] * (1 - th ** 2) / w[None, :]
+    g = np.sum(model.gradient(phi, Tprof) * dphi, axis=1)
+    wq = np.pi / M * np.sqrt(1 - chi ** 2)
+    return float(-np.sum(wq * g * jac)), phi
 
 
-def t_profile(case, n):
-    """temperature on the grid: constant, or varying when the field part is T-independent"""
+def evaluate(model, eom, lo, hi, p, wpo, Tprof, Tref):
+    """everything that is judged about one returned (pressure, wall) pair"""
+    from WallGo.fields import Fields
+    from WallGo.polynomial import Polynomial
+    grid = eom.grid
+    TN = model.TN
+    out = dict(M=int(grid.M), tails=[float(grid.tailLengthInside * TN),
+                                     float(grid.tailLengthOutside * TN)],
+               aInOut=[float(grid.aIn), float(grid.aOut)])
+    dV = model.V(lo, Tref) - model.V(hi, Tref)
+    out.update(pressure=float(p), deltaV=dV, rel=abs(float(p) - dV) / abs(dV),
+               returned=[[float(x) * TN for x in wpo.widths], [float(x) for x in wpo.offsets]])
+    vs = max(abs(model.V(lo, Tref)), abs(model.V(hi, Tref))) / abs(dV)
+    out["floor"] = 1e-9 + 1e-11 * vs
+    jac_rel, xi_ok, jfd, jcode, zends = grid_jacobian_check(grid)
+    out["jac_rel"], out["xi_consistent"] = jac_rel, xi_ok / (1.0 / TN)
+    # the map reaches both phases (hypothesis of the limit clause: xi -> -+infinity at
+    # chi -> -+1): the exact profile at chi = -+(1 - 1e-9)
+    lo_a, hi_a = np.asarray(lo, dtype=float), np.asarray(hi, dtype=float)
+    w_a = np.asarray(wpo.widths, dtype=float)
+    o_a = np.asarray(wpo.offsets, dtype=float)
+    span0 = np.max(np.abs(hi_a - lo_a))
+    tl = np.tanh(zends[0] / w_a + o_a)
+    tr = np.tanh(zends[1] / w_a + o_a)
+    out["limit_gap"] = float(max(np.max(np.abs(0.5 * (hi_a - lo_a) * (1 + tl))),
+                                 np.max(np.abs(0.5 * (hi_a - lo_a) * (1 - tr)))) / span0)
+    ref = reference_quadrature(model, grid, lo, hi, wpo.widths, wpo.offsets, Tprof,
+                               jcode if jac_rel <= 1e-5 else jfd)
+    if ref is None:
+        out["ref"] = None
+        return out
+    q, phi = ref
+    out["ref"] = q
+    out["intrinsic"] = abs(q - dV) / abs(dV)
+    out["code_vs_ref"] = abs(float(p) - q) / abs(dV)
+    out["resolved"] = out["intrinsic"] <= RESOLVED
+    out["tol"] = 3 * out["intrinsic"] + out["floor"]
+    # the statement of Coq lemmas integrand_1/2 evaluated with the code's own pieces for the
+    # RETURNED wall on the grid the caller sees
+    fields, dphi = eom.wallProfile(grid.xiValues, Fields(lo), Fields(hi), wpo)
+    dVdPhi = model.veff.derivField(fields, Tprof)
+    dVdz = np.sum(np.array(dVdPhi * dphi), axis=1)
+    dzdchi, _, _ = grid.getCompactificationDerivatives()
+    pm = float(Polynomial(dVdz, grid).integrate(weight=-dzdchi))
+    out["slice_rel"] = abs(pm - float(p)) / abs(dV)
+    # the grid reaches both phases: end points of the integral (hypothesis of the limit clause)
+    span = np.max(np.abs(np.asarray(hi, dtype=float) - np.asarray(lo, dtype=float)))
+    out["end_gap"] = float(max(np.max(np.abs(phi[0] - np.asarray(lo, dtype=float))),
+                               np.max(np.abs(phi[-1] - np.asarray(hi, dtype=float)))) / span)
+    return out
+
+
+def t_profile(case, n, TN):
     if case.get("Tvar", 0.0):
         x = np.linspace(-1.0, 1.0, n)
         return TN * (1.0 + case["Tvar"] * np.tanh(2.0 * x))
     return TN * np.ones(n)
 
 
+def build_model(case):
+    return Model(case["kind"], case["params"], case["TN"], case.get("scalar_scale", False))
+
+
 def run_case(case):
-    """Evaluate the property on the real EOM for one generated input."""
+    """Evaluate the property on the real EOM._intermediatePressureResults for one input."""
     from WallGo.containers import WallParams
-    from WallGo.polynomial import Polynomial
-    veff = make_potential(case["kind"], case["params"])
-    nf = veff.fieldCount
-    lo, hi = veff.minima(TN)
-    eom = make_eom(veff, case["M"], case["offEq"], nf)
+    from WallGo.fields import Fields
+    model = build_model(case)
+    TN, nf = model.TN, model.nf
+    lo, hi = model.ends()
+    eom = make_eom(model, case["M"], case["offEq"], case["ratio"], case["smoothing"],
+                   case["mfpT"], case.get("nparticles", 0))
     n = case["M"] - 1
     vMid = case["vMid"]
-    Tprof = t_profile(case, n)
+    Tprof = t_profile(case, n, TN)
 
     def step(wp, mult):
         return eom._intermediatePressureResults(
-            wp, lo, hi, 0.0, 0.0, vMid, zero_boltzmann(eom.grid), float(Tprof[-1]),
-            float(Tprof[0]), temperatureProfileInput=Tprof,
-            velocityProfileInput=vMid * np.ones(n), multiplier=mult)
+            wp, Fields(lo), Fields(hi), 0.0, 0.0, vMid,
+            zero_boltzmann(eom.grid, len(eom.particles)), float(Tprof[-1]), float(Tprof[0]),
+            temperatureProfileInput=Tprof, velocityProfileInput=vMid * np.ones(n),
+            multiplier=mult)
 
     widths = np.array(case["widthsT"], dtype=float) / TN
     offsets = np.array(case["offsets"], dtype=float)
     wp = WallParams(widths=widths.copy(), offsets=offsets.copy())
     eom._updateGrid(wp, vMid)            # same call as in EOM.wallPressure
-    out = dict()
+    if case.get("external_remap"):
+        # history on the shared Grid3Scales object: EOM maps it to another wall, then the
+        # grid's other owner (solver / manager) re-maps it through the grid's own method
+        g = eom.grid
+        pars = (g.tailLengthInside, g.tailLengthOutside, g.wallThickness, g.wallCenter)
+        eom._updateGrid(WallParams(widths=2.5 * wp.widths, offsets=0.5 * wp.offsets), vMid)
+        eom.grid.changePositionFalloffScale(*pars)
+    start = None
     if case["mode"] == "imposed":
         p, wpo, _, _ = step(wp, 0.0)
     else:
-        # let the step move the wall, on a grid that resolves the wall it moves to: first
-        # find the minimum of the action, re-map the grid to it, then start the checked
-        # step from a perturbed shape
+        # let the step move the wall, on a grid that resolves the wall it moves to: find the
+        # minimum of the action, re-map the grid to it, start the checked step from a
+        # perturbed shape
         for _ in range(2):
             _, wp, _, _ = step(wp, 1.0)
             eom._updateGrid(wp, vMid)
-        start = WallParams(widths=wp.widths * np.array(case["wfac"][:nf]),
-                           offsets=wp.offsets + np.array(([0.0] + case["dofs"])[:nf]))
-        out["start"] = [list(map(float, start.widths * TN)), list(map(float, start.offsets))]
-        p, wpo, _, _ = step(start, case["multiplier"])
-    grid = eom.grid
-    out["tails"] = [float(grid.tailLengthInside), float(grid.tailLengthOutside)]
-    out["aInOut"] = [float(grid.aIn), float(grid.aOut)]
-    Tref = float(Tprof[0])
-    dV = float(np.ravel(veff.evaluate(lo, Tref))[0] - np.ravel(veff.evaluate(hi, Tref))[0])
-    out.update(pressure=float(p), deltaV=dV, rel=abs(float(p) - dV) / abs(dV),
-               returned=[list(map(float, wpo.widths * TN)), list(map(float, wpo.offsets))])
-    wr, orr = np.asarray(wpo.widths, dtype=float), np.asarray(wpo.offsets, dtype=float)
-    Lret = (np.max((1 - orr) * wr) - np.min((-1 - orr) * wr)) / 2
-    out["R"] = float(case["M"] * np.min(wr) / Lret)
-    out["vscale_over_dV"] = float(max(abs(np.ravel(veff.evaluate(lo, Tref))[0]),
-                                      abs(np.ravel(veff.evaluate(hi, Tref))[0])) / abs(dV))
-    out["tol"] = tolerance(case["M"], case["offEq"], out["R"], out["vscale_over_dV"])
-    # the generated integrand, rebuilt from the RETURNED wall parameters on the grid the
-    # caller sees (statement of Coq lemmas integrand_1 / integrand_2)
-    fields, dphi = eom.wallProfile(grid.xiValues, lo, hi, wpo)
-    dVdPhi = veff.derivField(fields, Tprof)
-    dVdz = np.sum(np.array(dVdPhi * dphi), axis=1)
-    dzdchi, _, _ = grid.getCompactificationDerivatives()
-    pm = float(Polynomial(dVdz, grid).integrate(weight=-dzdchi))
-    out["slice_rel"] = abs(pm - float(p)) / abs(dV)
-    # hypothesis of the theorems: dzdchi is the derivative of the grid map chi -> z
-    chi = np.asarray(grid.chiValues, dtype=float)
-    zeros = np.zeros_like(chi)
-    err = None
-    for hf in (4e-3, 1e-3, 2.5e-4):       # truncation vs rounding: best of three steps
-        h = hf * (1.0 - np.abs(chi))
-        Z = lambda s: grid.decompactify(chi + s * h, zeros, zeros)[0]  # noqa: E731
-        fd = (Z(-2) - 8 * Z(-1) + 8 * Z(1) - Z(2)) / (12 * h)
-        e1 = np.abs(fd - dzdchi) / np.abs(dzdchi)
-        err = e1 if err is None else np.minimum(err, e1)
-    out["jac_rel"] = float(np.max(err))
-    out["xi_consistent"] = float(np.max(np.abs(
-        grid.decompactify(chi, zeros, zeros)[0] - grid.xiValues)))
-    # ... and the grid reaches both phases (end points of the integral)
-    f_all = np.asarray(fields)
-    span = np.max(np.abs(np.asarray(hi) - np.asarray(lo)))
-    out["end_gap"] = float(max(np.max(np.abs(f_all[0] - np.asarray(lo).ravel())),
-                               np.max(np.abs(f_all[-1] - np.asarray(hi).ravel()))) / span)
+        startp = WallParams(widths=wp.widths * np.array(case["wfac"][:nf]),
+                            offsets=wp.offsets + np.array(([0.0] + case["dofs"])[:nf]))
+        start = [[float(x) * TN for x in startp.widths], [float(x) for x in startp.offsets]]
+        p, wpo, _, _ = step(startp, case["multiplier"])
+    out = evaluate(model, eom, lo, hi, p, wpo, Tprof, float(Tprof[0]))
+    out["start"] = start
+    out["solver_calls"] = eom.boltzmannSolver.calls
     return out
 
 
-def gen_case(rng, tier_M):
-    kind = rng.choice(["quartic1", "twofield", "twofield", "twofield_Tindep"])
-    if kind == "quartic1":
-        params = dict(D=rng.choice([0.15, 0.2, 0.3]), E=rng.choice([0.03, 0.05]),
-                      lam=rng.choice([0.08, 0.1]), g=100.0)
-        # both phases exist at TN iff T0 < TN < T0/sqrt(1-r), r = 9E^2/(8 lam D)
-        r = 9 * params["E"] ** 2 / (8 * params["lam"] * params["D"])
-        params["T0"] = TN * math.sqrt(1 - rng.uniform(0.2, 0.9) * r)
-        nf = 1
-    else:
-        params = dict(muh2=rng.choice([7000.0, 7800.0, 9000.0]), lh=rng.choice([0.1, 0.13]),
-                      mus2=rng.choice([8000.0, 9000.0]), ls=rng.choice([0.8, 1.0]),
-                      lhs=rng.choice([1.0, 1.2, 1.5]), ch=rng.choice([0.3, 0.4]),
-                      cs=rng.choice([0.2, 0.25]), a=10.0)
-        if kind == "twofield_Tindep":
-            params.update(ch=0.0, cs=0.0, a=rng.choice([0.5, 2.0]),
-                          muh2=params["muh2"] - 3500.0, mus2=params["mus2"] - 2500.0)
-        nf = 2
-    w0 = rng.uniform(2.0, 12.0)
-    widths = [w0] + [w0 * math.exp(rng.uniform(-math.log(3), math.log(3)))
-                     for _ in range(nf - 1)]
-    offsets = [0.0] + [rng.uniform(-2.0, 2.0) for _ in range(nf - 1)]
-    case = dict(kind="twofield" if nf == 2 else kind, params=params, M=rng.choice(tier_M),
-                offEq=rng.random() < 0.6, vMid=rng.choice([0.05, 0.3, 0.6, 0.9]),
-                widthsT=widths, offsets=offsets, mode="imposed")
-    if kind == "twofield_Tindep":
-        case["Tvar"] = rng.choice([0.02, 0.05])
-    elif rng.random() < 0.4:
-        case.update(mode="moved", multiplier=rng.choice([1.0, 0.5, 0.25]),
-                    wfac=[rng.uniform(0.7, 1.4), rng.uniform(0.7, 1.4)],
-                    dofs=[rng.uniform(-0.3, 0.3)])
-    return case
+def bag_boundaries(model, lo, hi, Tp, vp):
+    """exact junction conditions for V = V0(phi) - a T^4 (same radiation term in both
+    phases) when the plasma enters the wall at (T+, v+); None if there is no solution"""
+    a = model.p["a"] * 1.0
+    V0lo = model.V(lo, 0.0)
+    V0hi = model.V(hi, 0.0)
+    wp_ = 4 * a * Tp ** 4
+    g2 = 1 / (1 - vp ** 2)
+    c1 = wp_ * g2 * vp
+    c2 = wp_ * g2 * vp ** 2 + a * Tp ** 4 - V0hi
+    K = c2 + V0lo
+    disc = 16 * K ** 2 - 12 * c1 ** 2
+    if disc < 0:
+        return None
+    roots = [(4 * K + s * math.sqrt(disc)) / (6 * c1) for s in (1, -1)]
+    roots = [r for r in roots if 0 < r < 1]
+    if not roots:
+        return None
+    vm = min(roots, key=lambda r: abs(r - vp))
+    Tm4 = (c2 + V0lo - c1 * vm) / a
+    if Tm4 <= 0:
+        return None
+    return c1, c2, Tp, Tm4 ** 0.25, 0.5 * (vp + vm)
 
 
-def judge(ctx, case, res):
-    """compare one evaluation with the property; report failing inputs"""
-    tol = res["tol"]
-    ok = True
-    tag = "M=%d offEq=%s vMid=%g %s %s" % (case["M"], case["offEq"], case["vMid"],
-                                           case["kind"], case["mode"])
-    if res["jac_rel"] > 1e-5 or res["xi_consistent"] > 1e-9:
-        ok = False
-        ctx.fail_input(
-            "grid Jacobian is not the derivative of the grid map (rel. diff %.2e, tails "
-            "%s) [%s]" % (res["jac_rel"], res["tails"], tag),
-            dict(kind="jacobian", case=case, result=res), key="jacobian-not-derivative")
-    if res["slice_rel"] > 1e-11:
-        ok = False
-        ctx.fail_input(
-            "returned pressure is not the integral of dV/dphi.dphi/dz for the RETURNED wall "
-            "parameters (rel. diff %.2e) [%s]" % (res["slice_rel"], tag),
-            dict(kind="slice", case=case, result=res), key="integrand-not-returned-wall")
-    if not res["rel"] <= tol:
-        ok = False
-        ctx.fail_input(
-            "pressure %.10e != V(low)-V(high) %.10e (rel. diff %.2e > %.1e) [%s]" % (
-                res["pressure"], res["deltaV"], res["rel"], tol, tag),
-            dict(kind="pressure", case=case, result=res, tolerance=tol),
-            key="pressure-not-deltaV")
-    return ok
+def driver_boundaries(model, lo, hi, case):
+    """detonation-like: (T+, v+) = (TN, vw), the branch findPlasmaProfilePoint selects when
+    T+ = Tnucl; deflagration-like: heated plasma in front, subsonic"""
+    TN = model.TN
+    if case["branch"] == "detonation":
+        vp = case["vw"]
+        while bag_boundaries(model, lo, hi, TN, vp) is None and vp < 0.94:
+            vp += 0.02           # below the Jouguet velocity of this potential
+        return bag_boundaries(model, lo, hi, TN, vp)
+    return bag_boundaries(model, lo, hi, case["Tplus"] * TN, case["vplus"])
+
+
+def run_driver_case(case):
+    """End to end: EOM.__init__ -> wallPressure -> _intermediatePressureResults (first call
+    with the REAL findPlasmaProfile, then the iteration) with stubbed hydrodynamics; the
+    field part of the potential does not depend on temperature (second clause)."""
+    from WallGo.containers import WallParams
+    model = build_model(case)
+    TN = model.TN
+    lo, hi = model.ends()
+    eom = make_eom(model, case["M"], False, case["ratio"], case["smoothing"], case["mfpT"],
+                   case.get("nparticles", 0),
+                   hydro=lambda vw: driver_boundaries(model, lo, hi, case),
+                   forceEnergyConservation=case["forceEnergyConservation"],
+                   forceImproveConvergence=case["improve"])
+    wp = WallParams(widths=np.array(case["widthsT"], dtype=float) / TN,
+                    offsets=np.array(case["offsets"], dtype=float))
+    outs = []
+    for _ in range(2):      # second call: the grid is re-mapped to the relaxed wall
+        p, wp, _, bg, _ = eom.wallPressure(case["vw"], wp)
+        Tprof = np.asarray(bg.temperatureProfile[1:-1], dtype=float)
+        o = evaluate(model, eom, lo, hi, p, wp, Tprof, TN)
+        o["success"] = bool(eom.successWallPressure and eom.successTemperatureProfile)
+        o["Trange"] = [float(np.min(Tprof) / TN), float(np.max(Tprof) / TN)]
+        outs.append(o)
+    return outs
 
 
 # ---------------------------------------------------------------------------------------
-# wallProfile: certified correspondence and derivative check
+# generators
+
+def gen_params(rng, kind):
+    if kind == "quartic1":
+        p = dict(D=rng.choice([0.15, 0.2, 0.3]), E=rng.choice([0.03, 0.05]),
+                 lam=rng.choice([0.08, 0.1]), g=100.0)
+        r = 9 * p["E"] ** 2 / (8 * p["lam"] * p["D"])
+        p["t0"] = math.sqrt(1 - rng.uniform(0.2, 0.9) * r)     # both phases exist at T = TN
+        return p
+    if kind == "sextic1":
+        return dict(a2=rng.choice([0.05, 0.08]), c=rng.choice([0.0, 0.5]),
+                    a4=rng.choice([0.25, 0.3]), a6=rng.choice([0.12, 0.15]), g=30.0)
+    p = dict(muh2=rng.choice([0.7, 0.78, 0.9]), lh=rng.choice([0.1, 0.13]),
+             mus2=rng.choice([0.8, 0.9]), ls=rng.choice([0.8, 1.0]),
+             lhs=rng.choice([1.0, 1.2, 1.5]), ch=rng.choice([0.3, 0.4]),
+             cs=rng.choice([0.2, 0.25]), a=10.0)
+    if kind == "threefield":
+        p.update(m3=rng.choice([0.3, 0.6]), l3=rng.choice([0.5, 1.0]), lh3=rng.choice([0.2, 0.6]),
+                 ls3=rng.choice([0.2, 0.6]), u3=rng.choice([0.2, -0.4]))
+    return p
+
+
+def gen_case(rng, tier_M):
+    fam = rng.choice(["quartic1", "twofield", "twofield", "twofield_Tindep", "sextic1",
+                      "threefield", "species", "species"])
+    kind = dict(twofield_Tindep="twofield", species=rng.choice(["quartic1", "twofield"])).get(
+        fam, fam)
+    params = gen_params(rng, kind)
+    if fam == "twofield_Tindep":
+        params.update(ch=0.0, cs=0.0, a=rng.choice([0.5, 2.0]), muh2=params["muh2"] - 0.35,
+                      mus2=params["mus2"] - 0.25)
+    nf = dict(quartic1=1, sextic1=1, twofield=2, threefield=3)[kind]
+    w0 = rng.uniform(2.0, 12.0)
+    widths = [w0] + [w0 * math.exp(rng.uniform(-math.log(3), math.log(3)))
+                     for _ in range(nf - 1)]
+    case = dict(kind=kind, family=fam, params=params, TN=rng.choice([1.0, 100.0, 100.0, 1e4]),
+                M=rng.choice(tier_M), offEq=rng.random() < 0.55,
+                vMid=rng.choice([0.0, 0.05, 0.3, 0.6, 0.9, 0.99]),
+                ratio=rng.choice([0.3, 0.5, 0.5, 0.7]),
+                smoothing=rng.choice([0.03, 0.1, 0.1, 0.3]),
+                mfpT=rng.choice([30.0, 100.0, 100.0, 300.0]),
+                scalar_scale=rng.random() < 0.3, widthsT=widths, mode="imposed")
+    if fam == "species":
+        # the configuration of real runs that neglect the out-of-equilibrium part: species are
+        # declared, includeOffEq is off; the solver stub would return NON-zero deltas
+        case.update(offEq=False, nparticles=rng.choice([1, 2]))
+    moved = fam not in ("twofield_Tindep", "threefield") and rng.random() < 0.4
+    if moved:
+        # (_toWallParams pins the first offset to 0 for a wall that the step moves)
+        case["offsets"] = [0.0] + [rng.uniform(-2.0, 2.0) for _ in range(nf - 1)]
+        case.update(mode="moved", multiplier=rng.choice([1.0, 0.5, 0.25]),
+                    wfac=[rng.uniform(0.7, 1.4), rng.uniform(0.7, 1.4)],
+                    dofs=[rng.uniform(-0.3, 0.3)])
+    else:
+        case["offsets"] = [rng.choice([0.0, rng.uniform(-2.0, 2.0)])] + \
+            [rng.uniform(-2.0, 2.0) for _ in range(nf - 1)]
+    if fam == "twofield_Tindep":
+        case["Tvar"] = rng.choice([0.02, 0.05])
+    case["external_remap"] = rng.random() < 0.2
+    return case
+
+
+def gen_driver_case(rng):
+    params = gen_params(rng, "twofield")
+    params.update(ch=0.0, cs=0.0, a=rng.choice([5.0, 10.0]), muh2=params["muh2"] - 0.35,
+                  mus2=params["mus2"] - 0.25)
+    case = dict(kind="twofield", family="driver", params=params, TN=rng.choice([1.0, 100.0]),
+                M=rng.choice([60, 80]), ratio=0.5, smoothing=0.1, mfpT=100.0,
+                nparticles=rng.choice([0, 1]),
+                widthsT=[rng.uniform(2.5, 5.0), rng.uniform(2.5, 5.0)], offsets=[0.0, 0.0],
+                forceEnergyConservation=rng.random() < 0.7, improve=rng.random() < 0.3)
+    if rng.random() < 0.5:
+        case.update(branch="detonation", vw=rng.choice([0.75, 0.85]))
+    else:
+        case.update(branch="deflagration", vw=rng.choice([0.4, 0.5]),
+                    Tplus=rng.choice([1.02, 1.05]), vplus=rng.choice([0.2, 0.35]))
+    return case
+
+
+def judge(ctx, case, res, label=""):
+    """compare one evaluation with the property; report failing inputs"""
+    tag = "%sM=%d offEq=%s vMid=%s %s/%s %s T=%g r=%g s=%g" % (
+        label, res["M"], case.get("offEq", False), case.get("vMid", case.get("vw")),
+        case["family"], case["kind"], case.get("mode", "driver"), case["TN"], case["ratio"],
+        case["smoothing"])
+    rep = dict(case=case, result=res)
+    if res["jac_rel"] > 1e-5 or res["xi_consistent"] > 1e-9:
+        ctx.fail_input(
+            "grid Jacobian is not the derivative of the grid map (rel. diff %.2e, tails*T "
+            "%s) [%s]" % (res["jac_rel"], res["tails"], tag),
+            dict(kind="jacobian", **rep), key="jacobian-not-derivative")
+    if not res["limit_gap"] < 1e-9:
+        ctx.fail_input(
+            "the grid map does not reach the two phases at chi = -+(1 - 1e-9): the exact "
+            "profile there is off by %.2e of the vev difference [%s]" % (res["limit_gap"], tag),
+            dict(kind="limit", **rep), key="grid-map-does-not-reach-phases")
+    if res.get("ref") is None:
+        ctx.fail_input("grid nodes are not the Gauss-Chebyshev-Lobatto points [%s]" % tag,
+                       dict(kind="nodes", **rep), key="grid-nodes")
+        return
+    if res["slice_rel"] > max(1e-11, 1e-3 * res["floor"]):
+        ctx.fail_input(
+            "returned pressure is not the integral of dV/dphi.dphi/dz for the RETURNED wall "
+            "parameters (rel. diff %.2e) [%s]" % (res["slice_rel"], tag),
+            dict(kind="slice", **rep), key="integrand-not-returned-wall")
+    if not res["code_vs_ref"] <= res["floor"]:
+        ctx.fail_input(
+            "pressure %.10e differs from the documented quadrature of the exact integrand "
+            "%.10e (rel. diff %.2e > %.1e) [%s]" % (
+                res["pressure"], res["ref"], res["code_vs_ref"], res["floor"], tag),
+            dict(kind="reference", **rep), key="pressure-not-reference-quadrature")
+    if res["resolved"]:
+        if not res["rel"] <= res["tol"]:
+            ctx.fail_input(
+                "pressure %.10e != V(low)-V(high) %.10e on a resolved wall (rel. diff %.2e > "
+                "%.1e) [%s]" % (res["pressure"], res["deltaV"], res["rel"], res["tol"], tag),
+                dict(kind="pressure", **rep), key="pressure-not-deltaV")
+    if case.get("nparticles") and not case.get("offEq") and res.get("solver_calls"):
+        ctx.fail_input("Boltzmann solver called %d times although includeOffEq is off [%s]"
+                       % (res["solver_calls"], tag),
+                       dict(kind="solver", **rep), key="solver-called-without-offEq")
+
+
+# ---------------------------------------------------------------------------------------
+# wallProfile / _updateGrid: certified correspondence and derivative check
 
 def profile_cases(ctx, rng, npts):
     """real wallProfile on multi-field arrays at dyadic inputs -> rows for Coq"""
     from WallGo.containers import WallParams
     from WallGo.equationOfMotion import EOM
     from WallGo.fields import Fields
-    eom = EOM.__new__(EOM)
+    eom = make_eom(Model("quartic1", gen_params(rng, "quartic1"), 1.0), 40, False)
     rows = []
     for _ in range(npts):
         nf = rng.choice([1, 2, 3])
@@ -322,11 +635,10 @@ def profile_cases(ctx, rng, npts):
         f, g = eom.wallProfile(np.array([float(x) for x in z]), Fields([float(x) for x in lo]),
                                Fields([float(x) for x in hi]), wp)
         f, g = np.asarray(f), np.asarray(g)
-        # scalar call convention as well (np.isscalar branch)
         fs, gs = eom.wallProfile(float(z[0]), Fields([float(x) for x in lo]),
                                  Fields([float(x) for x in hi]), wp)
         if not (np.allclose(np.ravel(fs), f[0], rtol=0, atol=0) and
-                np.allclose(np.ravel(gs), g[0], rtol=0, atol=0)):
+                np.allclose(np.ravel(gs), g[0], rtol=1e-15, atol=0)):
             ctx.fail_input("wallProfile scalar and array call disagree",
                            dict(kind="profile-branches", z=str(z[0])), key="profile-branches")
         for k in range(3):
@@ -362,18 +674,20 @@ def grid_rows(ctx, rng, n):
     """real EOM._updateGrid -> (inputs as exact rationals, resulting grid parameters)"""
     from WallGo.containers import WallParams
     rows = []
-    veff1 = make_potential("quartic1", dict(D=0.2, E=0.05, lam=0.1, T0=97.0, g=100.0))
     for _ in range(n):
         nf = rng.choice([1, 2])
+        model = Model("quartic1" if nf == 1 else "twofield",
+                      gen_params(rng, "quartic1" if nf == 1 else "twofield"), 1.0)
         offEq = rng.random() < 0.5
-        w = [rng.randint(8, 512) / 4096.0 for _ in range(nf)]
-        o = [0.0] + [rng.randint(-64, 64) / 32.0 for _ in range(nf - 1)]
+        w = [rng.randint(8, 512) / 64.0 for _ in range(nf)]
+        o = [rng.choice([0.0, rng.randint(-64, 64) / 32.0])] + \
+            [rng.randint(-64, 64) / 32.0 for _ in range(nf - 1)]
         v = rng.choice([0.0, 0.05, 0.3, 0.6, 0.9, 0.99])
-        eom = make_eom(veff1, 40, offEq, nf)
-        eom.meanFreePathScale = rng.choice([0.25, 1.0, 3.5])
+        eom = make_eom(model, 40, offEq, rng.choice([0.3, 0.5, 0.7]),
+                       rng.choice([0.03, 0.1, 0.3]), rng.choice([25.0, 100.0, 350.0]))
         eom._updateGrid(WallParams(widths=np.array(w), offsets=np.array(o)), v)
         g = eom.grid
-        rows.append(dict(nf=nf, offEq=offEq, w=w, o=o, v=v, mfp=eom.meanFreePathScale,
+        rows.append(dict(nf=nf, offEq=offEq, w=w, o=o, v=v, mfp=float(eom.meanFreePathScale),
                          smoothing=float(g.smoothing), ratio=float(g.ratioPointsWall),
                          out=[float(g.tailLengthInside), float(g.tailLengthOutside),
                               float(g.wallThickness), float(g.wallCenter)]))
@@ -425,7 +739,7 @@ def profile_derivative_check(ctx, rng, n):
     from WallGo.containers import WallParams
     from WallGo.equationOfMotion import EOM
     from WallGo.fields import Fields
-    eom = EOM.__new__(EOM)
+    eom = make_eom(Model("quartic1", gen_params(rng, "quartic1"), 1.0), 40, False)
     for _ in range(n):
         nf = rng.choice([1, 2, 3])
         lo = [rng.uniform(-300, 300) for _ in range(nf)]
@@ -433,11 +747,11 @@ def profile_derivative_check(ctx, rng, n):
         w0 = rng.uniform(0.01, 0.3)
         w = [w0] + [w0 * math.exp(rng.uniform(-math.log(3), math.log(3)))
                     for _ in range(nf - 1)]
-        d = [0.0] + [rng.uniform(-2, 2) for _ in range(nf - 1)]
+        d = [rng.uniform(-2, 2) for _ in range(nf)]
         wp = WallParams(widths=np.array(w), offsets=np.array(d))
         z = np.linspace(-6, 6, 97) * max(w)
         h = 1e-3 * min(w)
-        F = lambda s: np.asarray(eom.wallProfile(z + s * h, Fields(lo), Fields(hi), wp)[0])
+        F = lambda s: np.asarray(eom.wallProfile(z + s * h, Fields(lo), Fields(hi), wp)[0])  # noqa
         num = (F(-2) - 8 * F(-1) + 8 * F(1) - F(2)) / (12 * h)
         g = np.asarray(eom.wallProfile(z, Fields(lo), Fields(hi), wp)[1])
         rel = float(np.max(np.abs(g - num)) / (np.max(np.abs(num)) + 1e-300))
@@ -446,6 +760,27 @@ def profile_derivative_check(ctx, rng, n):
             ctx.fail_input("dPhidz is not the z-derivative of the profile (rel. diff %.2e)"
                            % rel, dict(kind="profile-derivative", lo=lo, hi=hi, widths=w,
                                        offsets=d, rel=rel), key="dPhidz-not-derivative")
+
+
+def compile_files(ctx, paths, jobs=3, timeout=900):
+    """coqc on generated evaluation files, at most `jobs` at a time; a timeout (load) is
+    inconclusive, not a broken correspondence"""
+    pending = list(paths)
+    running = []
+    while pending or running:
+        while pending and len(running) < jobs:
+            name, p = pending.pop(0)
+            running.append((name, subprocess.Popen(
+                ["timeout", str(timeout), "coqc"] + ctx.coq_args() + [p], cwd=ctx.bdir,
+                stdout=subprocess.PIPE, stderr=subprocess.PIPE, text=True)))
+        name, pr = running.pop(0)
+        _, err = pr.communicate()
+        if pr.returncode == 124:
+            ctx.log("certified evaluation %s timed out (machine load): inconclusive" % name)
+            ctx.cov.setdefault("inconclusive", []).append(name)
+        elif pr.returncode != 0:
+            ctx.broken.append("correspondence: certified evaluation %s" % name)
+            ctx.log("certified evaluation failed", vlib.tail(err, 8))
 
 
 # ---------------------------------------------------------------------------------------
@@ -458,47 +793,37 @@ def run(ctx):
         text, info = gen_eom_profile.generate(src)
         ctx.write("EomProfile.v", text, sources=dict(
             file="src/WallGo/equationOfMotion.py", sha=vlib.sha(src), spans=info["spans"]))
-        ctx.log("pressure slice: returned wall version %d, profile calls %s, grid versions %s"
-                % (info["result"]["wall"], info["profile_calls"],
-                   sorted(info["grid_versions"])))
+        ctx.log("pressure slice: returned wall version %d, grid versions %s, Boltzmann "
+                "results updated only under %s" % (
+                    info["result"]["wall"], sorted(info["grid_versions"]),
+                    [g["guard"] for g in info["guards"]]))
     except pyrx.TranslateError as e:
         ctx.log("translator failed:", e)
         ctx.broken.append("translator: %s" % e)
         gen_ok = False
     proved = gen_ok and ctx.prove(extra=["EomProfile.v"])
     ctx.trusted += ["tools/pyrx.py + tools/gen_eom_profile.py (AST translator: per-field "
-                    "scalarisation of wallProfile, versioned def-use slice of "
-                    "_intermediatePressureResults)",
+                    "scalarisation of wallProfile/_updateGrid, versioned def-use slice of "
+                    "_intermediatePressureResults, allow-list of grid-pure EOM methods)",
                     "Coquelicot 3.x (real analysis library)",
                     "Interval tactic (certified evaluation; uses kernel primitive floats/ints)"]
     rng = ctx.rng
-    # --- certified correspondence of the generated wallProfile --------------------------
+    # --- certified correspondence of the generated wallProfile / _updateGrid --------------
     try:
         rows = profile_cases(ctx, rng, ctx.n(4, 40))
+        grows = grid_rows(ctx, rng, ctx.n(6, 40))
         if gen_ok and proved is not False:
-            chunks = [rows[i:i + 40] for i in range(0, len(rows), 40)]
-            procs = []
-            for k, ch in enumerate(chunks):
-                p = ctx.write("Cases/Profile_%d.v" % k, eval_file(ch))
-                procs.append((k, subprocess.Popen(
-                    ["timeout", "600", "coqc"] + ctx.coq_args() + [p], cwd=ctx.bdir,
-                    stdout=subprocess.PIPE, stderr=subprocess.PIPE, text=True)))
-            grows = grid_rows(ctx, rng, ctx.n(6, 40))
-            p = ctx.write("Cases/UpdateGrid.v", grid_eval_file(grows))
-            procs.append(("UpdateGrid", subprocess.Popen(
-                ["timeout", "600", "coqc"] + ctx.coq_args() + [p], cwd=ctx.bdir,
-                stdout=subprocess.PIPE, stderr=subprocess.PIPE, text=True)))
-            ctx.sample(dict(updateGrid_row=grows[0]))
-            for k, pr in procs:
-                _, err = pr.communicate()
-                if pr.returncode != 0:
-                    ctx.broken.append("correspondence: certified evaluation %s" % (
-                        k if isinstance(k, str) else "Profile_%d" % k))
-                    ctx.log("certified evaluation failed", vlib.tail(err, 8))
-        ctx.log("certified evaluations done (%d wallProfile rows)" % len(rows))
+            files = []
+            for k in range(0, len(rows), 40):
+                files.append(("Profile_%d" % (k // 40), ctx.write(
+                    "Cases/Profile_%d.v" % (k // 40), eval_file(rows[k:k + 40]))))
+            files.append(("UpdateGrid", ctx.write("Cases/UpdateGrid.v",
+                                                  grid_eval_file(grows))))
+            compile_files(ctx, files)
+        ctx.log("certified evaluations done (%d wallProfile rows, %d _updateGrid rows)" % (
+            len(rows), len(grows)))
         ctx.sample(dict(profile_row=[str(x) for x in rows[0]]))
         profile_derivative_check(ctx, rng, ctx.n(20, 200))
-        ctx.log("profile derivative checks done")
     except Exception as ex:          # noqa: BLE001
         import traceback
         ctx.log("profile correspondence raised", traceback.format_exc())
@@ -507,9 +832,23 @@ def run(ctx):
     tier_M = [40, 41, 44, 48, 50, 55, 60, 70, 80, 100, 120, 140, 160, 200] if ctx.quick else \
         [40, 41, 42, 43, 45, 47, 50, 53, 57, 60, 64, 70, 75, 80, 90, 100, 120, 140, 160,
          200, 240]
-    worst = {}
-    ncases = ctx.n(300, 3000)
-    for _ in range(ncases):
+    resolution = {}
+    worst = dict(code_vs_ref_over_floor=0.0, rel_over_tol=0.0)
+
+    def account(case, res):
+        if res.get("ref") is None:
+            return
+        k = "M<60" if res["M"] < 60 else ("M<100" if res["M"] < 100 else "M>=100")
+        k += "/unequal tails" if abs(res["tails"][0] - res["tails"][1]) > 1e-9 else "/equal tails"
+        d = resolution.setdefault(k, dict(resolved=0, unresolved=0, worst_intrinsic=0.0))
+        d["resolved" if res["resolved"] else "unresolved"] += 1
+        d["worst_intrinsic"] = max(d["worst_intrinsic"], res["intrinsic"])
+        worst["code_vs_ref_over_floor"] = max(worst["code_vs_ref_over_floor"],
+                                              res["code_vs_ref"] / res["floor"])
+        if res["resolved"]:
+            worst["rel_over_tol"] = max(worst["rel_over_tol"], res["rel"] / res["tol"])
+
+    for _ in range(ctx.n(300, 3000)):
         case = gen_case(rng, tier_M)
         try:
             res = run_case(case)
@@ -520,55 +859,109 @@ def run(ctx):
                            dict(kind="raise", case=case), key="raises")
             continue
         unequal = abs(res["aInOut"][0] - res["aInOut"][1]) > 1e-3 * res["aInOut"][0]
-        ctx.count("pressure_direct", case,
-                  bucket="%s/%s/%s" % ("offEq" if case["offEq"] else "eq", case["mode"],
-                                       "aIn!=aOut" if unequal else "aIn==aOut"))
+        ctx.count("pressure_direct", case, bucket="%s/%s/%s/%s" % (
+            case["family"], "offEq" if case["offEq"] else "eq", case["mode"],
+            "aIn!=aOut" if unequal else "aIn==aOut"))
+        if case["external_remap"]:
+            ctx.count("grid_remapped_by_other_owner", nontrivial=False)
         ctx.count("jacobian_hypothesis")
-        ctx.count("slice_vs_returned_wall")
+        ctx.count("configuration", bucket="r=%g s=%g T=%g" % (case["ratio"], case["smoothing"],
+                                                              case["TN"]), nontrivial=False)
         judge(ctx, case, res)
-        k = "%d/%s" % (case["M"], "offEq" if case["offEq"] else "eq")
-        r = res["rel"] / res["tol"]
-        if r > worst.get(k, (0, 0))[0]:
-            worst[k] = (round(r, 4), res["rel"])
+        account(case, res)
         if len(ctx.cov["samples"]) < 5:
             ctx.sample(dict(case=case, pressure=res["pressure"], deltaV=res["deltaV"],
-                            rel=res["rel"], jacobian_rel=res["jac_rel"],
-                            tails=res["tails"]))
+                            reference_quadrature=res.get("ref"), rel=res["rel"],
+                            jacobian_rel=res["jac_rel"], tails=res["tails"]))
+    ctx.log("direct validation of _intermediatePressureResults done")
+    # --- end to end through EOM.__init__ / wallPressure / _getNextPressure ------------------
+    for _ in range(ctx.n(3, 30)):
+        case = gen_driver_case(rng)
+        try:
+            outs = run_driver_case(case)
+        except Exception as ex:      # noqa: BLE001
+            import traceback
+            ctx.log("wallPressure raised", traceback.format_exc().strip().splitlines()[-1])
+            ctx.fail_input("EOM.wallPressure raised %r" % ex, dict(kind="raise-driver",
+                                                                   case=case), key="raises")
+            continue
+        for k, res in enumerate(outs):
+            ctx.count("wallPressure_end_to_end", dict(case=case, call=k),
+                      bucket="call %d/%s" % (k, "resolved" if res.get("resolved") else
+                                             "unresolved"))
+            if not res["success"]:
+                ctx.fail_input("wallPressure reports failure (temperature profile / "
+                               "convergence) in a uniform bag-type plasma",
+                               dict(kind="driver-failure", case=case, result=res),
+                               key="driver-reports-failure")
+            judge(ctx, case, res, label="wallPressure call %d " % k)
+            account(case, res)
+        if len(ctx.cov["samples"]) < 6:
+            ctx.sample(dict(driver_case=case, results=[
+                dict(pressure=o["pressure"], deltaV=o["deltaV"], rel=o["rel"],
+                     returned=o["returned"], Trange=o["Trange"]) for o in outs]))
+    ctx.cov["resolution"] = resolution
     ctx.cov["calibration"] = dict(
-        note="worst (rel.error / tolerance, rel.error) per M/grid setting on this run",
-        worst=worst, tolerance=TOLERANCE_RULE)
-    ctx.log("largest error/tolerance ratio: %s" % (max(worst.values())[0] if worst else None))
+        note="no fitted tolerance; worst observed ratios on this run", worst=worst,
+        rule=TOLERANCE_RULE)
+    ctx.log("largest |p-Q_ref|/floor %.3g, largest |p-dV|/tol on resolved walls %.3g" % (
+        worst["code_vs_ref_over_floor"], worst["rel_over_tol"]))
     ctx.cov["rule"] = (
-        "potentials: 1-field quartic (3 coefficients varied), 2-field quartic with portal "
-        "coupling (7 coefficients varied), 2-field quartic with T-independent field part and "
-        "a varying temperature profile; T=100; first width 2..12/T, other widths within a "
-        "factor 3, offsets in [-2,2]; M from 40 to 200 (240 thorough); grid tails from "
-        "EOM._updateGrid with includeOffEq False (equal tails) and True (mfp*gamma vs "
-        "mfp/gamma, vMid in {0.05,0.3,0.6,0.9}); wall shape imposed (multiplier 0) or moved "
-        "by the step (multiplier 1, 0.5, 0.25 from a perturbed start on a grid re-mapped to "
-        "the action minimum); distinct = distinct case dictionary")
+        "potentials (dimensionless couplings, T = 1, 100 or 1e4): 1-field quartic, 1-field "
+        "sextic (finite-difference gradient not exact), 2-field quartic with portal coupling, "
+        "the same with T-independent field part and a varying temperature profile, 3-field "
+        "quartic (low phase with a non-minimal third component); scalar or list "
+        "fieldValueVariationScale; first width 2..12/T, other widths within a factor 3, all "
+        "offsets in [-2,2] (first offset 0 when the step moves the wall); M from 40 to 200 "
+        "(240 thorough); Grid3Scales with ratioPointsWall in {0.3,0.5,0.7}, smoothing in "
+        "{0.03,0.1,0.3}, mean free path 30,100,300/T; tails from EOM._updateGrid with "
+        "includeOffEq False and True, vMid in {0,0.05,0.3,0.6,0.9,0.99}; family 'species': "
+        "includeOffEq False with 1-2 declared Particle objects and a solver stub returning "
+        "non-zero deltas, zero initial Boltzmann results built as wallPressure does; wall "
+        "imposed (multiplier 0) or moved (multiplier 1, 0.5, 0.25 from a perturbed start on a "
+        "grid re-mapped to the action minimum); in 20% of the cases the shared grid is first "
+        "mapped to another wall and then re-mapped by changePositionFalloffScale from outside "
+        "EOM; EOM always built by its own __init__; "
+        "end-to-end: wallPressure called twice with stubbed hydrodynamics (exact bag junction "
+        "conditions), real findPlasmaProfile, both iteration algorithms; distinct = distinct "
+        "case dictionary")
     ctx.assumptions += [
-        "Gauss-Lobatto quadrature error of Polynomial.integrate (validated: calibrated "
-        "tolerance per M and grid setting, recorded under coverage.calibration)",
+        "Gauss-Lobatto quadrature error of Polynomial.integrate: NOT assumed small; measured "
+        "for every input as the error of the documented rule on the exact integrand "
+        "(coverage.resolution); the property is judged on the walls it resolves to 1e-3",
         "grid.getCompactificationDerivatives()[0] is the derivative of the map chi -> z used "
-        "for grid.xiValues (hypothesis of the theorems; proved by C17; validated by central "
-        "differences of decompactify on every grid used here)",
-        "effectivePotential.derivField is the gradient of evaluate (finite differences, "
-        "exact for quartics up to rounding: C19/C08)",
+        "for grid.xiValues and the outermost nodes reach the two phases (hypotheses of the "
+        "theorems; the first is proved by C17; both validated on every grid used here)",
+        "effectivePotential.derivField is the gradient of evaluate (finite differences: "
+        "C19/C08; compared here with the closed-form gradient through the reference "
+        "quadrature, including a sextic potential)",
         "numpy broadcasting in wallProfile is elementwise (validated by the certified "
-        "evaluation on multi-field arrays)",
-        "methods called between the two wallProfile calls do not re-map self.grid except "
-        "through self.grid.<method>() / self._updateGrid() calls visible in "
-        "_intermediatePressureResults"]
+        "evaluation on multi-field arrays); np.sum(axis=1) is the sum over fields",
+        "the allow-listed methods wallProfile, _toWallParams, findPlasmaProfile, action and "
+        "the EOM methods they call do not re-map self.grid (their bodies are checked for "
+        "calls through self.grid / self.boltzmannSolver; scipy callbacks are trusted)"]
 
 
 def replay(rep):
     print(json.dumps({k: v for k, v in rep.items() if k != "result"}, indent=1))
-    if "case" in rep and rep.get("kind") in ("pressure", "slice", "jacobian"):
+    if "case" not in rep:
+        return 0
+
+    class _C:
+        failed = []
+
+        def fail_input(self, what, replay, key=None):
+            self.failed.append((key, what))
+    c = _C()
+    if rep["case"].get("family") == "driver":
+        for k, res in enumerate(run_driver_case(rep["case"])):
+            print("re-evaluated call %d:" % k, json.dumps(res, indent=1))
+            judge(c, rep["case"], res, label="wallPressure call %d " % k)
+    else:
         res = run_case(rep["case"])
         print("re-evaluated:", json.dumps(res, indent=1))
-        tol = res["tol"]
-        bad = res["rel"] > tol or res["slice_rel"] > 1e-11 or res["jac_rel"] > 1e-5
-        print("tolerance", tol, "->", "FAILS" if bad else "passes")
-        return 1 if bad else 0
-    return 0
+        judge(c, rep["case"], res)
+    for key, what in c.failed:
+        print("FAILS:", key, what)
+    print("->", "FAILS" if c.failed else "passes")
+    return 1 if c.failed else 0
